@@ -252,6 +252,9 @@ LoopBoxes:
 				if ok, parsed := traf.ContainsSencBox(); ok && !parsed {
 					isEncrypted := true
 					defaultIVSize := byte(0) // Should get this from tenc in sinf
+					if traf.Tfhd == nil {
+						return nil, fmt.Errorf("traf with senc box but without tfhd box")
+					}
 					if f.Moov != nil {
 						trackID := traf.Tfhd.TrackID
 						isEncrypted = f.Moov.IsEncrypted(trackID)
